@@ -3,6 +3,7 @@ package main
 
 import (
 	"context"
+	crand "crypto/rand"
 	"errors"
 	"fmt"
 	"github.com/theparanoids/ysshra/sshutils/key"
@@ -440,6 +441,50 @@ func main() {
 						}
 					}
 				})
+			}
+			// the forwarded agent answers the challenge without any error — with a signature that is not the registered
+			// key's (another key's, over other data, of another format, empty): nobody authenticated
+			if sh.Real {
+				for _, hostile := range []string{"other-key", "other-data", "other-format", "empty-blob"} {
+					hostile := hostile
+					c := r.Case("fault", idx)
+					idx++
+					if c == nil {
+						continue
+					}
+					rec := faultRec{Shape: sh, Fault: "challenge-answered-with-a-signature-of-" + hostile, Stage: "auth", Frames: N, Signs: S}
+					judge(r, c, e, sh, rec, func(ag *wire.Agent, tr *tracker, s *gsrig.Signer) {
+						first := true
+						ag.Rec.SignHook = func(key ssh.PublicKey, data []byte, fl agent.SignatureFlags) (*ssh.Signature, error, bool) {
+							if !first {
+								return nil, nil, false
+							}
+							first = false
+							other := gen.Pool()[7]
+							if string(other.Pub.Marshal()) == string(key.Marshal()) {
+								other = gen.Pool()[8]
+							}
+							switch hostile {
+							case "other-key":
+								sig, err := other.Sgn.Sign(crand.Reader, data)
+								return sig, err, true
+							case "other-data":
+								sig, err := e.user.Sgn.Sign(crand.Reader, append([]byte("x"), data...))
+								return sig, err, true
+							case "other-format":
+								sig, err := e.user.Sgn.Sign(crand.Reader, data)
+								if sig != nil {
+									sig.Format = ssh.KeyAlgoED25519
+									if key.Type() == ssh.KeyAlgoED25519 {
+										sig.Format = ssh.KeyAlgoECDSA256
+									}
+								}
+								return sig, err, true
+							}
+							return &ssh.Signature{Format: key.Type(), Blob: nil}, nil, true
+						}
+					})
+				}
 			}
 			// panics in handler / agent-key methods, empty and failing Generate
 			var nilErr *gensign.Error
